@@ -43,10 +43,10 @@ pub struct KCase {
 }
 
 fn sid() -> Identifier {
-    Identifier::numeric(1).unwrap()
+    Identifier::numeric(3).unwrap()
 }
 fn tid() -> Identifier {
-    Identifier::numeric(1).unwrap()
+    Identifier::numeric(2).unwrap()
 }
 
 fn tag(producer: u8, batch: u16, idx: u16, len: usize) -> Vec<u8> {
@@ -149,8 +149,8 @@ fn run_case(case: &KCase, p: &Params, dir: &ScratchDir, out: &mut Outcome) -> Ch
     let node = Arc::new(Node::start(&case.cfg, &dir.path).map_err(|e| fail("start-failed", format!("{e:?}")))?);
     let admin = node.tcp_root().map_err(|e| fail("cannot-connect", e.to_string()))?;
     node.block_on(async {
-        admin.create_stream("s", Some(1)).await?;
-        admin.create_topic(&sid(), "t", 1, CompressionAlgorithm::None, None, Some(1), IggyExpiry::NeverExpire, MaxTopicSize::Unlimited).await?;
+        admin.create_stream("s", Some(3)).await?;
+        admin.create_topic(&sid(), "t", 1, CompressionAlgorithm::None, None, Some(2), IggyExpiry::NeverExpire, MaxTopicSize::Unlimited).await?;
         Ok::<(), IggyError>(())
     })
     .map_err(|e| fail("setup", e.to_string()))?;
